@@ -1,4 +1,4 @@
 ------------------------------ MODULE AttestTool_MC ------------------------------
 EXTENDS AttestTool, Json
-ExportCase == (pc = "parse") => PrintT(<<"CASE", ToJson([in |-> in, inform |-> inform, outform |-> outform, out |-> out])>>)
+ExportCase == (pc = "flags") => PrintT(<<"CASE", ToJson([in |-> in, inform |-> inform, outform |-> outform, out |-> out, flags |-> flags])>>)
 =================================================================================
